@@ -65,6 +65,12 @@ impl<T> IndexSet<T> {
 
 }
 
+impl<T> IndexSet<T> {
+    pub fn iter(&self) -> (r: std::slice::Iter<'_, T>)
+        ensures r.remaining() == self@.as_ref(), vstd::std_specs::slice::into_iter_elts(r) == r.remaining().unref(), r.decrease() is Some,
+    { self.v.iter() }
+}
+
 impl<T> IntoIterator for IndexSet<T> {
     type Item = T;
     type IntoIter = std::vec::IntoIter<T>;
